@@ -112,8 +112,35 @@ def run_impl_seq(cases_path, out_path, jobs=16):
     sh([HARNESS, "seqdiff", cases_path, out_path, "--jobs", str(jobs)], timeout=3000)
 
 
-def run_model_seq(cases_path, out_path):
-    sh([MODELDRV, "seq", cases_path, out_path], timeout=3000)
+def run_model_seq(cases_path, out_path, jobs=16):
+    """The extracted model on a case file; the cases are independent, so the file is cut into shards that run
+    side by side (the driver itself is single-threaded)."""
+    text = open(cases_path).read()
+    blocks = [b + "END\n" for b in text.split("END\n") if b.strip()]
+    if len(blocks) < 8:
+        sh([MODELDRV, "seq", cases_path, out_path], timeout=3000)
+        return
+    n = min(jobs, len(blocks))
+    shards = [blocks[i::n] for i in range(n)]
+    procs = []
+    for i, sh_blocks in enumerate(shards):
+        ip, op = "%s.shard%d" % (cases_path, i), "%s.shard%d" % (out_path, i)
+        open(ip, "w").write("".join(sh_blocks))
+        procs.append((subprocess.Popen([MODELDRV, "seq", ip, op], stdout=subprocess.PIPE, stderr=subprocess.STDOUT,
+                                       text=True), ip, op))
+    outs = []
+    for p, ip, op in procs:
+        try:
+            o, _ = p.communicate(timeout=3000)
+        except subprocess.TimeoutExpired:
+            p.kill()
+            raise BuildError("model driver timed out on " + ip)
+        if p.returncode != 0:
+            raise BuildError("model driver failed (%d) on %s\n%s" % (p.returncode, ip, (o or "")[-2000:]))
+        outs.append(open(op).read())
+        os.remove(ip)
+        os.remove(op)
+    open(out_path, "w").write("".join(outs))
 
 
 def run_impl_pure(ops_path, out_path):
